@@ -7,6 +7,7 @@ import (
 	"encoding/hex"
 	"encoding/json"
 	"fmt"
+	"golang.org/x/crypto/bcrypt"
 	"net"
 	"regexp"
 	"sort"
@@ -392,10 +393,22 @@ type c01Env struct {
 	snap     map[string]c01Snap
 }
 
+const (
+	c01BcUser = "bcuser"
+	c01BcPass = "bcpw"
+)
+
 func newC01Env(c *Ctx) *c01Env {
 	e := &c01Env{c: c, up: world.NewUpstream("u"), sib: map[string]*Proxy{}, tokens: map[string]string{}}
 	e.idp = world.NewIdP()
-	e.htfile = writeHtpasswd(map[string]string{c01HtUser: c01HtPass})
+	// one {SHA} entry, one intact bcrypt entry, and two entries that carry a bcrypt prefix but cannot be
+	// evaluated (a truncated hash — a common way to lock an account — and an impossible cost): nothing
+	// verifies against those
+	bc, berr := bcrypt.GenerateFromPassword([]byte(c01BcPass), bcrypt.MinCost)
+	if berr != nil {
+		panic(berr)
+	}
+	e.htfile = tempFile(scratch(), "htpasswd-*", fmt.Sprintf("%s:%s\n%s:%s\nlocked:$2y$05$SXWrNM7ldtbRzBvUC3VXyO\nweird:$2y$99$SXWrNM7ldtbRzBvUC3VXyOvUeiKNT8rxVDRLGCLoBB9mwLNzwt3Ga\n", c01HtUser, shaEntry(c01HtPass), c01BcUser, bc))
 	e.emfile = writeEmails(c01EmailFile...)
 	world.ClearAdvanceHooks()
 	world.ResetClock()
@@ -903,6 +916,16 @@ func (e *c01Env) build(ref c01CfgRef) (w *c01World, err error) {
 	c = basic("basic-valid", "basic", basicAuth(c01HtUser, c01HtPass), true, "")
 	c.Producible = true
 	add(c)
+	c = basic("basic-bcrypt-valid", "basic", basicAuth(c01BcUser, c01BcPass), true, "")
+	if id := c.Parts[0].Ident; id != nil {
+		cp := *id
+		cp.User = c01BcUser
+		c.Parts[0].Ident = &cp
+	}
+	add(c)
+	add(basic("basic-bcrypt-wrong-password", "basic-invalid", basicAuth(c01BcUser, c01HtPass), false, "wrong password"))
+	add(basic("basic-entry-with-truncated-bcrypt-hash", "basic-invalid", basicAuth("locked", "anything"), false, "the htpasswd entry cannot be evaluated"))
+	add(basic("basic-entry-with-impossible-bcrypt-cost", "basic-invalid", basicAuth("weird", c01HtPass), false, "the htpasswd entry cannot be evaluated"))
 	add(basic("basic-wrong-password", "basic-invalid", basicAuth(c01HtUser, "wrong"), false, "wrong password"))
 	add(basic("basic-empty-password", "basic-invalid", basicAuth(c01HtUser, ""), false, "empty password"))
 	add(basic("basic-unknown-user", "basic-invalid", basicAuth("nobody", c01HtPass), false, "unknown user"))
